@@ -6,11 +6,12 @@ FLOAT_TB = "core Lean's claim that compiled Float operations implement Float.Mod
 
 PROPS = {
  'C03': dict(
-    modules=['SlacProps.C03'],
+    modules=['SlacProps.C03', 'SlacProps.C03Float'],
     streams=[
         dict(name='evaltable', n=n(0, 0), view='result'),
         dict(name='eval', n=n(40000, 1500000), view='result'),
         dict(name='evalill', n=n(30000, 1000000), view='result'),
+        dict(name='script', n=n(20000, 500000), view='script_exec', oracle='none'),
         dict(name='cmp', n=n(40000, 1500000), oracle='none'),
         dict(name='num', n=n(40000, 1500000), oracle='none'),
     ],
@@ -54,7 +55,7 @@ PROPS = {
     trusted=['harness renderer (harness/src/lang.rs render) implements the documented precedence table; Unicode tables dumped from Rust std (SlacModel/UnicodeTables.lean)'],
  ),
  'C02': dict(
-    modules=['SlacProps.C02'],
+    modules=['SlacProps.C02', 'SlacProps.C02Float'],
     streams=[
         dict(name='scanfrag', n=n(3, 4), view='okfull', oracle='none'),
         dict(name='scan', n=n(60000, 2000000), view='okfull', oracle='none'),
@@ -71,6 +72,7 @@ PROPS = {
     streams=[
         dict(name='opt', n=n(40000, 1500000), view='opt_c05', oracle='none', laws=['c05']),
         dict(name='optill', n=n(20000, 500000), view='opt_c05', oracle='none', laws=['c05']),
+        dict(name='script', n=n(20000, 500000), view='script_opt', oracle='none', laws=['script_c05']),
     ],
     rule='opt/optill: random trees (depth<=4) mixing foldable all-literal sub-trees, variables in several spellings, if_then calls with 2-4 arguments, pure and impure functions of all arity kinds, folds that fail midway; '
          'random environments binding about half of the variables. Compared: status, rewritten tree (also the partial tree of a failed run), execute before/after under the same environment. non-trivial = tree has an operator/call/array node',
@@ -105,6 +107,7 @@ PROPS = {
     modules=['SlacProps.C10', 'SlacProps.C10Tables', 'SlacProps.C10Optimize'], regen=True,
     streams=[
         dict(name='dcall', n=n(150, 5000), view='kind', oracle='none', laws=['c10_dcall']),
+        dict(name='script', n=n(20000, 500000), view='script_chk', oracle='none', laws=['script_c10']),
         dict(name='chkvf', n=n(50000, 1500000), view='chk_exec', oracle='none', laws=['c10']),
         dict(name='opt', n=n(30000, 1000000), view='opt_c10', oracle='none', laws=['c10_opt']),
         dict(name='env', n=n(20000, 500000), oracle='none', rust_oracle=True),
@@ -182,24 +185,24 @@ PROPS = {
  'C18': dict(
     modules=['SlacProps.C18'],
     streams=[
-        dict(name='re', n=n(20000, 1000000), oracle='none'),
-        dict(name='relaw', n=n(20000, 1000000), model=False, oracle='none', laws=['ok']),
+        dict(name='re', n=n(20000, 300000), oracle='none'),
+        dict(name='relaw', n=n(20000, 300000), model=False, oracle='none', laws=['ok']),
     ],
     rule='re: the four wrappers on haystacks (empty, ASCII, non-ASCII) x patterns (literals, classes, repetitions, alternations, groups incl. optional/nested/named, anchors, empty-matching, invalid) x replacements (plain, $-references) x limits, '
          'with the raw regex-lite answers shipped in the case so that the wrapper logic is compared exactly; relaw: the property\'s cross-function relations evaluated on the builtins (is_match vs find, capture shape/length, replace limit via match spans, escaped literals vs contains/count/replace, invalid patterns)',
     trusted=['regex-lite is not modelled: theorems are relative to the stated engine laws (LawfulEngine, ReplacenSplices, LiteralLaw), which relaw samples as tests of the library'],
  ),
  'C15': dict(
-    modules=['SlacProps.C15'], builds=['default', 'zero'],
+    modules=['SlacProps.C15', 'SlacProps.C15Float'], builds=['default', 'zero'],
     streams=[dict(name='call:length,at,copy,insert,find,count,contains,replace,remove,reverse,unique,all,any,split,split_csv,trim,trim_left,trim_right,lowercase,uppercase,same_text', gen='call:length,at,copy,insert,find,count,contains,replace,remove,reverse,unique,all,any,split,split_csv,trim,trim_left,trim_right,lowercase,uppercase,same_text', build=b, n=n(250, 10000), oracle='none', laws=['no_crash']) for b in ('default', 'zero')] +
             [dict(name='poslaw', build=b, n=n(30000, 1000000), model=False, oracle='none', laws=['ok']) for b in ('default', 'zero')],
     rule='call: the 21 collection/string builtins x generated argument lists in both index-base builds: strings from ASCII / multi-byte / combining / astral / empty pools, heterogeneous and nested arrays, needles that are substrings, empty, overlapping (aa in aaa); '
          'positions and counts at first-1, first, last, last+1, 0, fractional, huge, NaN; answers compared with the sequence model. poslaw: at-enumeration, copy(s, find(s,x), length(x)) = x, failed find = first-1, array laws — evaluated on the builtins themselves',
-    trusted=[FLOAT_TB, 'LawfulIdx: small integers are exact in binary64 (hypothesis of the position theorems; toy instance proves it satisfiable; tied by the num stream)',
+    trusted=[FLOAT_TB, 'LawfulIdx Float is PROVED (SlacProofs/F64Idx.lean): the position theorems hold for binary64 without hypotheses (SlacProps/C15Float.lean)',
              'Unicode case mapping / White_Space from Rust std tables'],
  ),
  'C16': dict(
-    modules=['SlacProps.C16'],
+    modules=['SlacProps.C16', 'SlacProps.C16Float'],
     streams=[
         dict(name='tmrange', n=n(0, 1), view='tmrange', oracle='none', laws=['tmrange'], case_timeout=600.0),
         dict(name='call:date,time,date_to_string,time_to_string,string_to_date,string_to_time,string_to_datetime,day_of_week,encode_date,encode_time,inc_month,is_leap_year,year,month,day,hour,minute,second,millisecond', gen='call:date,time,date_to_string,time_to_string,string_to_date,string_to_time,string_to_datetime,day_of_week,encode_date,encode_time,inc_month,is_leap_year,year,month,day,hour,minute,second,millisecond', n=n(400, 20000), oracle='none', laws=['no_crash']),
@@ -207,7 +210,7 @@ PROPS = {
     ],
     rule='tmrange: whole ranges evaluated inside one request, compared by violation count + digest of all encoded numbers: quick = 45 ranges of 2000 dates (incl. year 1, year 9999, 1970, leap day 2000), 44 ranges of 5000 ms of day (incl. midnight, end of day, hour and noon boundaries), 20x2000 date x time combinations through both construction routes and inc_month with increments -24000..24000; '
          'thorough = ALL 3 652 059 dates of years 1-9999, ALL 86 400 000 milliseconds of day, 1 000 000 combinations. call: the 19 date-time builtins on boundary-heavy arguments (year 0/-1/9999/10000, chrono limits, NaN, inf, malformed formats and strings). TZ=UTC',
-    trusted=[FLOAT_TB, 'LawfulTimeNum: binary64 multiplication/division/round/casts follow the standard model of floating-point arithmetic on date-time operands (|T| <= 2^48 ms); the rounding fact is PROVED from the standard model over Q (decode_encode_real), the standard model itself is the assumption',
+    trusted=[FLOAT_TB, 'LawfulTimeNum Float is PROVED (SlacProofs/F64Arith.lean: core Float division and multiplication satisfy the standard model on normal results; F64Time.lean: decode(encode) for |T| <= 2^48 ms), so the C16 theorems hold for binary64 without hypotheses (SlacProps/C16Float.lean)',
              'chrono (NaiveDate range, checked_add_months, default-format parsing/printing) is modelled by SlacModel/Time.lean on the canonical spellings only; other spellings/formats are skipped and counted'],
  ),
  'C17': dict(
